@@ -14,6 +14,7 @@ fn fmt_stub2(_a: core::fmt::Arguments<'_>) -> String {
 // @harness c10_compressed_release
 // @props C10 C03 C08
 // @tier quick
+// @cost 17
 // @timeout 900
 // @needs X0
 // @desc the release of a replaced compressed cluster in do_write_cow (the `if compressed {..}` block, lifted verbatim) for EVERY spec-valid compressed L2 entry and every cluster size: does not panic and hands to free_clusters exactly the host clusters the descriptor occupies per the specification -- none missing (leak), none extra (under-count of a neighbour)
@@ -48,6 +49,7 @@ fn c10_compressed_release() {
 // @harness c16_compressed_read_request
 // @props C16 C14 C09
 // @tier quick
+// @cost 14
 // @timeout 900
 // @needs C0
 // @desc the request geometry of do_read_compressed (everything before the bounce buffer is allocated, lifted verbatim) for ANY compressed descriptor (any byte-granular host offset and length the entry format can express) and every block size: no overflow; the request offset and length are multiples of the block size, length > 0, the window covers [offset, offset+len) of the descriptor, and the slice pad..pad+len taken from the bounce buffer lies inside it
